@@ -1,5 +1,10 @@
 package jmespath
 
+import (
+	"encoding/json"
+	"strconv"
+)
+
 // C01: core queries return the value the specification defines.
 // Differential against refjp over expression templates built from a step
 // alphabet, for every document within the bounds (lazy documents: only what
@@ -246,4 +251,49 @@ func H_C01_index() {
 	if err == nil {
 		vrtAssert(refEqual(got, want), "index selects the element the specification names (null when out of range)")
 	}
+}
+
+// H_C01_wide: arrays long enough to cross the size thresholds implementations
+// switch behaviour at (inline buffers of 8 / 16 / 32 / 64 elements, insertion
+// sort below 13 elements), and constructs evaluated inside their own kind
+// (a filter inside a filter's predicate, a projection inside a projection's
+// key), which is where scratch storage kept between calls gets overwritten.
+// The array has n concrete members {x, y, s} and two lazily typed ones (null,
+// or an object with symbolic numbers x and y[0]); the reference decides the value.
+var c01WideExprs = []string{
+	"a[*].x", "a[?x].x", "a[?x > `1`].s", "a[?y[?@ > `1`]].s", "a[?y[?@ > `1`]] | [*].s", "a[?y[?@ > `1`]][?x > `0`].s", "a[*].y[?@ > `0`]",
+	"a[].y[]", "a[*].y[*]", "map(&y[?@ > `1`], a)", "a[?length(y[?@ > `0`]) > `1`].x", "a[::2].x", "a[::-1].x", "a[1:-1].y[0]",
+	"reverse(a)[*].x", "a[*].x | sort(@)", "sort_by(a, &x)[*].s", "sort_by(a, &s)[*].x", "group_by(a, &s).s1[*].x", "a[*].[x, s]", "a[*].{k: x}.k",
+	"length(a[?x == `0`])", "join(',', a[*].s)", "a[*].s | sort(@)", "min(a[*].x)", "sum(a[*].x)", "zip(a[*].x, a[*].s)[-1]", "a[*].y | [] | []",
+	"a[*]", "a[?@]", "a[]", "a[1:]", "a[*].y[?@ > `0`] | [?@]", "a[?x == `1`] | [?y[?@ > `1`]].s", "map(&map(&@, y), a)[-2]", "a[?x].y[?@].[@]",
+	"sort_by(a, &length(y[?@ > `0`]))[*].s", "a[*].[y[?@ > `1`], x][?@]", "[a[?x > `1`].s, a[?x < `1`].s, a[?x == `1`].s]", "a[*].x[]", "a[*].s | [?@ == 's0'] | length(@)",
+}
+
+func c01WideElem(name string) any {
+	if vrtBool(name + "null") {
+		return nil
+	}
+	return map[string]any{"x": vrtJNum(name+"x", nfInt), "y": []any{vrtJNum(name+"y", nfInt), json.Number("2")}, "s": "s1"}
+}
+
+func H_C01_wide() {
+	vrtSpec(2, 3, 1, "x,y,s", smASCII, nfInt, 0)
+	vrtNumRange(0, 3)
+	vrtBudget(4000000)
+	vrtMaxAlloc(600)
+	sizes := []int{3, 17, 65}
+	if vrtTier() == 1 {
+		sizes = []int{3, 9, 13, 17, 33, 65, 129}
+	}
+	n := sizes[vrtChoose("n", len(sizes))]
+	k := vrtChoose("expr", len(c01WideExprs))
+	expr := c01WideExprs[k]
+	vrtNote("template:" + expr)
+	arr := make([]any, n)
+	for i := range arr {
+		arr[i] = map[string]any{"x": json.Number(strconv.Itoa(i % 4)), "y": []any{json.Number(strconv.Itoa(i % 3)), json.Number("2")}, "s": "s" + strconv.Itoa(i%3)}
+	}
+	arr[1] = c01WideElem("p")
+	arr[n-2] = c01WideElem("q")
+	diffSearch(expr, map[string]any{"a": arr}, false)
 }
